@@ -878,7 +878,9 @@ def clause_failures(v: dict, sem: dict, shape: str, ir_required: bool | None) ->
             mech = "strict_nullable_overrides_type_list"
         elif v["kind"] == "typing.TypedDict" and "nr=1" in shape:
             mech = "typeddict_notrequired_no_fallback"
-        elif v["nullsrc"] == "oa-flag" and o["sn"] and (v["via"] != "own" or (rel == "owner" and not v["inreq"])) and not D and v["ty"] != "scalar":
+        elif v["nullsrc"] == "oa-flag" and o["sn"] and (v["via"] != "own" or (rel == "owner" and (not v["inreq"] or o["fo"]))) and not D and v["ty"] != "scalar":
+            # `nullable` was computed while the field was not (yet) required: allOf forms, and the copy made for a
+            # required-only override of a member the base did not keep required (not listed there, or --force-optional)
             mech = "late_required_loses_strict_nullable"
         else:
             mech = "other"
